@@ -440,7 +440,7 @@ def compute_field_invariants(ctx, rounds=2):
         if a["kind"] != "struct":
             continue
         for i, f in enumerate(a["variants"][0]["fields"]):
-            if f["vis"] != "pub" and f["t"].get("k") in ("uint", "int"):
+            if (f["vis"] != "pub" or not a.get("reachable", True)) and f["t"].get("k") in ("uint", "int"):
                 cands[(ak, i)] = {"name": f["name"], "ty": f["t"]["s"], "stores": [], "escaped": False}
     for rnd in range(rounds):
         for c in cands.values():
